@@ -346,7 +346,7 @@ def run(ctx, chk):
              'the path, or that it is the last segment, or that the next segment contains no ":" (else "./a:b" would be re-read with scheme a)',
              floor=2)
     from ..dotrules import rule_dot_removal
-    chk.analysed['dot_removal_sites'] = rule_dot_removal(ctx, chk, {'essential-dot': 'essential-dot'})
+    chk.analysed['dot_removal_sites'] = rule_dot_removal(ctx, chk, {'essential-dot': 'essential-dot', 'new-head-colon': 'essential-dot'})
     chk.rule('list-tail', 'list builders leave pathTail on the last node with next == NULL', floor=4)
     for mod, rules in ((c06, ('ambiguity-guard', 'guard-condition', 'flag-reconcile')), (c10, ('naked-guard',))):
         tmp = Check('tmp', tier=chk.tier)
